@@ -138,6 +138,7 @@ class Unit:
         region=None,
         preserves=(),
         protects=(),
+        export=None,
     ):
         self.name = name
         self.target = target
@@ -171,6 +172,9 @@ class Unit:
         # with modifies=['*']: locations that are nevertheless left unchanged (FRAME obligation
         # of the unit, assumption at its call sites)
         self.protects = list(protects)
+        # export: labels of the clauses callers may assume (None = all caller-visible ones);
+        # proving stays complete, callers just do not carry facts they never use
+        self.export = export
         self.region = region  # "body:<loopkey>" | "stmt:<loopkey>": the unit is a statement region
         import sys as _sys
 
